@@ -331,74 +331,6 @@ crate::mq_harness_real!(c16_wq_drop_seq, hk_c16_wq_drop_seq, Runner<WqDrop<BcB>,
 crate::mq_harness_real!(c16_protocol_d2_o0, hk_c16_protocol_d2_o0, Runner<MemProg<false, true, 0>, 0>, reclaim_protocol_d::<false, true, 0, 0>(19, 3, 2));
 
 // slim variants: one operation per actor, one injection
-// ==========================================================================================
-// C03 / C10 unit level: the writer's recomputation of the slowest stream (ReadCursor::get_max_diff, the
-// seqlock-style scan of the stream list) against add_stream + an advance of the parent stream.
-//   actor 0 (writer): d = cursor.get_max_diff(W)          W = writer count, parent stream at P0
-//   actor 1 (consumer): r1 = add_stream(r0)   |   r0 advances by one (what a receive does)
-// Oracle: when the scan returns after add_stream has returned, its result must cover the new
-// stream: d >= W - position(r1).  (A scan that looks at the stream list it loaded first and does
-// not notice that the list was replaced computes its result from the advanced parent alone; the
-// writer would then overwrite a slot the new stream has not read.)
-pub struct ScanProg;
-
-impl Prog for ScanProg {
-    const NACT: usize = 2;
-    const LEN: [u8; MAXACT] = [1, 2, 0, 0];
-    const BASE: [usize; MAXACT] = [0, 4, 0, 0];
-    fn step(a: usize, k: usize) {
-        let w = mw();
-        match (a, k) {
-            (0, _) => {
-                let d = w.cursor.get_max_diff(SCAN_W);
-                assert!(d.is_some(), "C03: the writer's scan of the stream list failed");
-                if let (Some(d), Some(r1)) = (d, w.r1.as_ref()) {
-                    // add_stream had returned before the scan returned
-                    let need = SCAN_W.wrapping_sub(r1.verif_pos());
-                    assert!(
-                        d as usize >= need,
-                        "C03: the writer's tail recomputation ignores a stream that add_stream had already registered (it would overwrite values that stream has not received)"
-                    );
-                }
-                w.scans += 1;
-            }
-            (1, 0) => {
-                let r = w.cursor.add_stream(&w.r0, &w.mgr);
-                w.r1 = Some(r);
-            }
-            (_, _) => {
-                // the parent stream's consumer takes one value
-                let att = w.r0.load_attempt(Ordering::Relaxed);
-                att.commit_direct(1, Ordering::Release);
-            }
-        }
-    }
-}
-
-pub const SCAN_W: usize = 2;
-
-pub fn scan_bound<const OUTER: usize>(budget: u8) {
-    sched::configure(1, budget, sched::MEM_KINDS | (1 << sched::K_ALLOC), 2);
-    let mgr = MemoryManager::new();
-    let (cursor, r0) = ReadCursor::new(2);
-    let tw = mgr.get_token();
-    let tr = mgr.get_token();
-    let mut w = MemWorld { mgr, cursor, r0, r1: None, tw, tr, scans: 0 };
-    unsafe { MEMW = &mut w };
-    run_concurrent::<ScanProg, OUTER>();
-    kani::cover!(sched::st().injected > 1, "add_stream and the parent's advance both ran inside the scan");
-    assert!(w.scans == 1, "C18: the scan did not return");
-    // sequentially, now that everything is registered: the scan sees the slower of the two streams
-    let d = w.cursor.get_max_diff(SCAN_W);
-    let p0 = w.r0.verif_pos();
-    let p1 = w.r1.as_ref().unwrap().verif_pos();
-    let slow = if p0 < p1 { p0 } else { p1 };
-    assert!(d == Some((SCAN_W - slow) as multiqueue2::verif_hooks::Index), "C03: at quiescence the recomputed tail is not the slowest stream");
-    std::mem::forget(w);
-}
-
-// (memory manager stubbed: reclamation is C16's subject; here only the stream-list protocol matters)
-crate::mq_harness!(c03_scan_vs_add_unit, hk_c03_scan_vs_add_unit, Runner<ScanProg, 0>, scan_bound::<0>(2));
 crate::mq_harness_real!(c16_scan_vs_add, hk_c16_scan_vs_add, Runner<MemProg<false, false, 1>, 0>, reclaim_protocol_d::<false, false, 1, 0>(20, 1, 1));
 crate::mq_harness_real!(c16_add_vs_scan, hk_c16_add_vs_scan, Runner<MemProg<false, false, 1>, 1>, reclaim_protocol_d::<false, false, 1, 1>(20, 1, 1));
 crate::mq_harness_real!(c16_scan_vs_remove, hk_c16_scan_vs_remove, Runner<MemProg<false, false, 2>, 0>, reclaim_protocol_d::<false, false, 2, 0>(19, 1, 1));
